@@ -12,7 +12,7 @@ VARIABLES tid, i, viol
 vars == <<tid, i, viol>>
 Stages == <<"Convert", "Load", "Services">>
 
-Valid(tr) == ErrorKinds(tr.wb) = {} /\ ~Undecided(tr.wb)
+Valid(tr) == ErrorKinds(tr.wb) = {} /\ ~Undecided(tr.wb) /\ ~Inconsistent(tr.wb)
 
 StageClauses(tr, stage) ==
   LET w == tr.wb
@@ -20,21 +20,26 @@ StageClauses(tr, stage) ==
   CASE stage = "Convert" ->
          IF ErrorKinds(w) # {} THEN (IF ob.status = "error" THEN {} ELSE {"RejectedWithTopologyError"})
          ELSE IF Undecided(w) THEN {}
+         ELSE IF Inconsistent(w) THEN (IF ob.status = "error" \/ (ob.status = "ok" /\ WiringFailing(w, ob.topo) = {}) THEN {}
+                                       ELSE {"InconsistentRowsRejectedOrWired"})
          ELSE IF ob.status # "ok" THEN {"ConvertsValidWorkbook"}
          ELSE Failing(w, ob.topo)
     [] stage = "Load" ->
          IF ~Valid(tr) \/ ob.status # "ok" THEN {}
-         ELSE (IF ob.load # "ok" THEN {"Loadable"} ELSE {})
-              \cup (IF ob.load = "ok" /\ tr.judge_design /\ ob.design # "ok" THEN {"Designable"} ELSE {})
+         ELSE (IF tr.judge_design /\ ob.load # "ok" THEN {"Loadable"} ELSE {})
+              \* auto-design is C08's subject; here only: a converted network with at least one ROADM site designs
+              \cup (IF ob.load = "ok" /\ tr.judge_design /\ (\E c \in Cities(w) : EffType(w, c) = "ROADM") /\ ob.design # "ok"
+                    THEN {"Designable"} ELSE {})
     [] stage = "Services" ->
          IF ~Valid(tr) \/ ob.status # "ok" \/ w.services = <<>> \/ ~tr.judge_services \/ Failing(w, ob.topo) # {} THEN {}
          ELSE IF ob.svc.status # "ok" THEN {"ServicesConvert"}
-         ELSE IF ~ServiceConforms(w, ob.topo, ob.svc, tr.bidir, Tol) THEN {"ServicesConform"} ELSE {}
+         ELSE ServiceFailing(w, ob.topo, ob.svc, tr.bidir, Tol)
 
 Init == tid \in 1..Len(T) /\ i = 0 /\ viol = {}
 Next == /\ i < Len(Stages)
         /\ i' = i + 1 /\ tid' = tid
         /\ viol' = viol \cup {<<Stages[i + 1], c>> : c \in StageClauses(T[tid], Stages[i + 1])}
 Done == i < Len(Stages) \/ PrintT("@@" \o ToJson([name |-> T[tid].name, n |-> i, viol |-> viol,
-                                                  kinds |-> ErrorKinds(T[tid].wb), undecided |-> Undecided(T[tid].wb)]))
+                                                  kinds |-> ErrorKinds(T[tid].wb), undecided |-> Undecided(T[tid].wb),
+                                                  inconsistent |-> Inconsistent(T[tid].wb)]))
 ==============================================================================
